@@ -12,3 +12,7 @@ import AGV.Props.C33
 #print axioms AGV.Props.C33.c33_witness_subscription_fields
 #print axioms AGV.Props.C33.c33_witness_fieldless_interface
 #print axioms AGV.Props.C33.c33_repaired_on_witnesses
+#print axioms AGV.Props.C33.c33_accept_sound
+#print axioms AGV.Props.C33.c33_accept_complete
+#print axioms AGV.Props.C33.c33_cycle_search_is_requires
+#print axioms AGV.Props.C33.c33_requiresItself_is_requires
